@@ -69,7 +69,10 @@ class TieredInterval:
                 if o_add_s_ext:
                     assert False, f"{self} and {other} are incomparable"
                 return False
-        return False
+        # All tiers are equal. The interval with the smaller cutoff
+        # replaces more sub-tiers by constants instead of adding to them,
+        # so it never leads to a later time than the other one.
+        return self.cutoff < other.cutoff
 
     def __repr__(self):
         return (
